@@ -171,6 +171,18 @@ def run(ctx: Ctx) -> None:
     rep.rule("C04.R8", "every path of a commit batch is committed: no early exit from the loop of sync_paths, in any store")
     n8 = S.every_path_processed(ctx, "C04.R8")
     rep.floor("C04.R8", n8, 2)
+    if rep.prop == "C04":
+        # the DBFS store: each documented commit type is accepted and does what it names (a commit type that silently commits nothing
+        # leaves every kept path unresolvable), redirect records are written where they are read, ...
+        from . import c19 as _c19
+        rep.rule("C04.R9", "as C19.R1-R11: with the Databricks store every documented commit type selects the documented behaviour, and the redirect record of a "
+                           "committed path is the one fetch_paths / load read")
+        before = len(rep.obligations)
+        _c19.run(ctx)
+        for o in rep.obligations[before:]:
+            o.rule = "C04.R9/" + o.rule
+        for k in [k for k in rep.floors if k.startswith("C19.")]:
+            rep.floors["C04.R9/" + k] = rep.floors.pop(k)
     from .c17 import codec_duals
     rep.rule("C04.R6", "as C17.R4/R5: every codec reads back what it wrote (binary mode, same encoding, dual operations): the value a committed path "
                        "serves equals the value keep returned")
@@ -184,6 +196,26 @@ def run(ctx: Ctx) -> None:
             rep.ok("C04.R3", mem.qname, desc, mem.module.relpath)
         else:
             rep.bad("C04.R3", mem.qname, desc, mem.module.relpath, [f"written: {w}, read: {r}"], "mem", what="MemoryStore commits paths where fetch_paths does not look")
+        # ... for every path of the batch, whether the path is already known or not
+        sp = mem.methods["sync_paths"]
+        scfg = cfg_of(sp)
+        stores_ = [st for st in sp.own_nodes() if isinstance(st, ast.Assign) and any(
+            isinstance(t, ast.Subscript) and isinstance(t.value, ast.Attribute) and isinstance(t.value.value, ast.Name) and t.value.value.id == "self" for t in st.targets)]
+        for loop in [x for x in sp.own_nodes() if isinstance(x, ast.For)]:
+            tb = [x for x in scfg.nodes if x.kind == "branch" and x.ast is loop and x.label == "T"]
+            heads = [x for x in scfg.nodes if x.kind == "loop" and x.ast is loop]
+            desc = "MemoryStore.sync_paths records every path of the batch (already known or not)"
+            if not tb or not heads or not stores_:
+                rep.unknown("C04.R3", sp.qname, "path table update of MemoryStore.sync_paths not found", sp.loc(loop))
+                continue
+            pth = scfg.find_path(tb, heads + [scfg.exit], avoid=[g for st in stores_ for g in scfg.nodes_of(st)], include_src=False)
+            if pth is None:
+                rep.ok("C04.R3", sp.qname, desc, sp.loc(stores_[0]))
+            else:
+                from .common import witness_path
+                rep.bad("C04.R3", sp.qname, desc, sp.loc(loop), ["an iteration that records nothing:"] + witness_path(scfg, sp, pth)[-8:] + [
+                        "a path that was committed before keeps its old key: after a re-keep with changed code, keep returns the new value and load the old one"],
+                        "mem-skip", what="MemoryStore.sync_paths does not update a path that is already known")
     c = prog.classes.get("dds.codecs.databricks.DBFSStore")
     if c is not None:
         m = StoreModel(prog, c, ctx._types)
